@@ -917,7 +917,16 @@ pub fn run(lines: &[Value], opts: &SampleOpts) -> Summary {
             const PAL: [f64; 12] = [1e-11, 1e-9, 1e-6, 1e-3, 0.3, 1.0 / 3.0, 0.7, 1.25, 2.5, 10.0, 1e3, 1e6];
             for _try in 0..6 {
                 let small = rng.gen_bool(0.6);
-                let w: Vec<f64> = (0..line.e).map(|_| if small && rng.gen_bool(0.35) { PAL[rng.gen_range(0..4)] } else { PAL[rng.gen_range(4..10)] }).collect();
+                let mut w: Vec<f64> = (0..line.e).map(|_| if small && rng.gen_bool(0.35) { PAL[rng.gen_range(0..4)] } else { PAL[rng.gen_range(4..10)] }).collect();
+                // first try: the LAST edge (or the last two) almost weightless - its selection probability is then below 1e-9, the
+                // tail of the cumulative distribution next to 1 belongs to it alone
+                if _try == 0 {
+                    for v in w.iter_mut() { if *v < 0.1 { *v = PAL[rng.gen_range(4..10)]; } }
+                    let n = line.e;
+                    w[n - 1] = [1e-11, 1e-12, 1e-13][rng.gen_range(0..3)];
+                    if n >= 3 && rng.gen_bool(0.3) { w[n - 2] = 1e-12; }
+                    sm.count("reweight_last_edge_tiny_tried");
+                }
                 if let Some(rl) = line.reweight(inst, &w) {
                     let mut spec2 = rl.g.to_spec(&map, &[]);
                     spec2.weights = w.clone();
